@@ -29,10 +29,10 @@ def run(chk):
     cases, tags = [], []
     for (k, t), s in zip(docs, signed):
         other = (k + 1) % 3
-        for kr in (str(k), str(k) + str(other), str(other) + str(k), str(other), "e", "n", "3"):
+        for kr in (str(k), str(k) + str(other), str(other) + str(k), str(other), "e", "z", "n", "3"):
             cases.append(("csread", [kr.encode(), s])); tags.append("keyrings")
         # unsigned input
-        for kr in ("n", str(k), "e"):
+        for kr in ("n", str(k), "e", "z"):
             cases.append(("csread", [kr.encode(), t])); tags.append("unsigned")
     # every single-byte substitution, deletion, insertion and truncation point of one signed document
     k0, t0 = 0, b"Source: hello\nBinary: a, b\nVersion: 2:1.0-1\nDescription: x\n y\n"
@@ -53,7 +53,7 @@ def run(chk):
     foreign = b"Source: evil\nVersion: 9\n"
     body_at = s0.index(b"Source: hello")
     sig_at = s0.index(b"-----BEGIN PGP SIGNATURE")
-    for kr in (b"0", b"n", b"01"):
+    for kr in (b"0", b"n", b"01", b"z"):
         for sp in [foreign + b"\n" + s0, b"#" + s0, b" " + s0, b"\n" + s0, s0[:body_at] + foreign + s0[body_at:], s0[:sig_at] + foreign + s0[sig_at:],
                    s0 + b"\n" + foreign, s0 + s0, s0[:sig_at] + b"\n" + foreign + b"\n" + s0[sig_at:], s0.replace(b"\n", b"\r\n"),
                    s0.replace(b"hello", b"hello "), s0.replace(b"Hash: SHA256", b"Hash: SHA1"), s0.replace(b"hello", b"hellp")]:
@@ -76,7 +76,7 @@ def run(chk):
         if not r.startswith("x"):
             raise lib.Infra("csmulti could not build a multi-signature document: %r" % r)
         d = bytes.fromhex(r[1:])
-        for kr in (b"0", b"1", b"01", b"10", b"2", b"e"):
+        for kr in (b"0", b"1", b"01", b"10", b"2", b"e", b"z"):
             cases.append(("csread", [kr, d])); tags.append("multi-signature")
     impl = chk.run_impl(cases)
     o3 = [split3(l) for l in impl]
